@@ -27,6 +27,7 @@ FRESH_FUNCS = {
     'scipp.isnan', 'scipp.reduce', 'scipp.midpoints', 'scipp.spatial.inv', 'scipp.spatial.as_vectors',
     'scipp.spatial.rotations_from_rotvecs', 'scipp.Unit', 'scipp.DimensionError', 'scipp.VariancesError',
     'scipp.DTypeError', 'scipp.CoordError', 'scipp.UnitError',
+    'scipp.sort', 'scipp.round', 'scipp.index', 'scipp.cumsum',
     # numpy
     'numpy.nextafter', 'numpy.argmax', 'numpy.array', 'numpy.repeat', 'numpy.tile', 'numpy.cos', 'numpy.sin',
     'numpy.ones', 'numpy.random.random', 'numpy.stack', 'numpy.linspace', 'numpy.array_equal', 'numpy.sqrt',
@@ -36,6 +37,7 @@ FRESH_FUNCS = {
     'len', 'int', 'float', 'round', 'sum', 'abs', 'isinstance', 'range', 'str', 'any', 'all', 'bool', 'repr',
     'type', 'print', 'hash', 'id', 'callable',
     'math.sqrt', 'math.log', 'math.exp', 'math.sin', 'math.cos', 'copy.deepcopy', 're.match',
+    'uuid.uuid4', 'dataclasses.fields',
     'importlib.resources.files', 'warnings.warn', 'datetime.datetime.now', 'scippneutron.io._files.open_or_pass',
     'ValueError', 'TypeError', 'RuntimeError', 'NotImplementedError', 'KeyError', 'IndexError', 'Exception',
 }
@@ -48,7 +50,7 @@ SHALLOW_FUNCS = {'dict', 'list', 'tuple', 'set', 'frozenset', 'sorted', 'reverse
 M_FRESH = {'min', 'max', 'mean', 'sum', 'nanmin', 'nanmax', 'nansum', 'any', 'all', 'norm', 'convert', 'is_edges',
            'startswith', 'endswith', 'rstrip', 'strip', 'lstrip', 'split', 'join', 'format', 'lower', 'upper',
            'encode', 'decode', 'replace', 'splitlines', 'ljust', 'rjust', 'readline', 'read', 'write', 'open', 'joinpath', 'issubset', 'union',
-           'intersection', 'difference', 'count', 'index', 'keys', 'isoformat', 'total_seconds'}
+           'intersection', 'difference', 'count', 'index', 'keys', 'isoformat', 'total_seconds', 'group', 'size'}
 M_MAYBE = {'to': 'copy', 'astype': 'copy', 'transpose': None, 'flatten': None, 'fold': None, 'broadcast': None,
            'squeeze': None, 'rename_dims': None, 'rename': None, 'reshape': None, 'ravel': None}
 M_MUT = {'append', 'extend', 'update', 'add', 'insert', 'remove', 'clear', 'sort', 'pop', 'popitem', 'setdefault',
@@ -119,6 +121,10 @@ class Module:
         self.src = open(self.path).read()
         self.tree = ast.parse(self.src)
         self.funcs, self.classes, self.aliases, self.globals = {}, {}, {}, set()
+        # classes / functions defined conditionally at module level (try: ... except ImportError: ...): their names
+        # denote immutable class / function objects; they are not analysed
+        self.other_defs = set()
+        self.enum_defs = set()      # those of them that are enumerations (calling one looks a member up by value)
         pkg = self.dotted.split('.')
         is_pkg = spec['py'].endswith('__init__.py')
         for n in self.tree.body:
@@ -143,6 +149,14 @@ class Module:
                 for t in tg:
                     if isinstance(t, ast.Name):
                         self.globals.add(t.id)
+            elif isinstance(n, (ast.Try, ast.If)):
+                blocks = [n.body, n.orelse, getattr(n, 'finalbody', [])] + [h.body for h in getattr(n, 'handlers', [])]
+                for sub in (x for b in blocks for x in b):
+                    if isinstance(sub, (ast.ClassDef, ast.FunctionDef)):
+                        self.other_defs.add(sub.name)
+                        if isinstance(sub, ast.ClassDef) and any(ast.unparse(b).split('.')[-1] in ('Enum', 'StrEnum', 'IntEnum')
+                                                                 for b in sub.bases):
+                            self.enum_defs.add(sub.name)
 
 
 # ----------------------------------------------------------------------------- the translator
@@ -187,6 +201,8 @@ class Gen:
             return (mod, ci, ci.props[n], 'prop')
         if n == '__init__' and ci.dataclass is not None:
             return (mod, ci, None, 'dcinit')
+        if n == '<new>':
+            return (mod, ci, None, 'new')      # the constructor call C(...): a fresh instance initialised by __init__
         return None
 
     def request(self, key):
@@ -368,6 +384,8 @@ class ExprMixin:
                     return ('member', m.classes[rest[0]], rest[1])
             if len(rest) == 1 and rest[0] in m.globals:
                 return ('global', m.key + '.' + rest[0])
+            if len(rest) == 1 and rest[0] in m.enum_defs:
+                return ('enum', rest[0])
             # a name re-exported from another spec module
             if len(rest) >= 1 and rest[0] in m.aliases:
                 return self.spec_target('.'.join([m.aliases[rest[0]]] + rest[1:]))
@@ -380,7 +398,7 @@ class ExprMixin:
             return f'(EVar {cq(n)})'
         if n in BUILTIN_CONSTS:
             return 'ENone'
-        if n in ctx.mod.funcs or n in ctx.mod.classes:
+        if n in ctx.mod.funcs or n in ctx.mod.classes or n in ctx.mod.other_defs:
             return 'ENone'            # function / class objects are immutable values
         if n in ctx.mod.globals:
             g = ctx.mod.key + '.' + n
@@ -814,7 +832,13 @@ class CallMixin:
         if m == 'copy':
             deep = self.kw(call, 'deep')
             if deep is not None and isinstance(deep, ast.Constant) and deep.value is False:
-                alts.append(f'(EShallow {self.new_alloc(ctx)} {obj})')
+                # x.copy(deep=False) of a scipp object: a new Variable / DataArray over the SAME buffers; a DataArray copy
+                # has its OWN coords and masks dicts (adding / deleting a coord of the copy does not touch x) holding the
+                # same variables.  Any other attribute of the copy is whatever x holds (rest).
+                a, a2, a3 = self.new_alloc(ctx), self.new_alloc(ctx), self.new_alloc(ctx)
+                alts.append(f'(ERecord {a} [({cq("data")}, (EField {obj} {cq("data")})); '
+                            f'({cq("coords")}, (EShallow {a2} (EField {obj} {cq("coords")}))); '
+                            f'({cq("masks")}, (EShallow {a3} (EField {obj} {cq("masks")})))] [(EElem {obj})] [])')
             elif deep is not None and not isinstance(deep, ast.Constant):
                 alts.append(f'(EEff [{self.expr(ctx, deep)}] (EShallow {self.new_alloc(ctx)} {obj}))')
             else:
@@ -881,11 +905,21 @@ class CallMixin:
             if n in ctx.mod.funcs:
                 keys = [self.fkey(ctx.mod, None, n)]
                 return self.ecall(ctx, keys, self.bind(ctx, keys, call))
+            if n in ctx.mod.enum_defs:
+                return f'(EEff {cl(self.all_args(ctx, call))} ENone)'
             ci = self.find_class(ctx.mod, n)
             if ci is not None:
                 return self.instantiate(ctx, ci, call)
             d = ctx.local_imports.get(n) or ctx.mod.aliases.get(n) or n
             return self.dotted_call(ctx, d, call)
+        if isinstance(f, ast.Attribute) and f.attr == '__setattr__' and isinstance(f.value, ast.Name) and f.value.id == 'object' \
+                and 'object' not in ctx.locals and len(call.args) == 3 and not call.keywords \
+                and isinstance(call.args[1], ast.Constant) and isinstance(call.args[1].value, str):
+            # object.__setattr__(ob, 'name', v) (how a frozen dataclass initialises itself): ob.name = v
+            val = self.expr(ctx, call.args[2])
+            ob = self.expr(ctx, call.args[0])
+            ctx.pre.append(f'SSetField {ob} {cq(call.args[1].value)} {val}')
+            return 'ENone'
         if isinstance(f, ast.Attribute):
             d = self.dotted(ctx, f)
             if d is not None:
@@ -937,6 +971,9 @@ class CallMixin:
                 return self.ecall(ctx, [t[1]], self.bind(ctx, [t[1]], call))
             if t[0] == 'class':
                 return self.instantiate(ctx, t[1], call)
+            if t[0] == 'enum':
+                # Enum(value): the (immutable, module-level) member with that value; the arguments are only read
+                return f'(EEff {cl(self.all_args(ctx, call))} ENone)'
             if t[0] == 'member':
                 r = self.class_member_call(ctx, t[1], t[2], call, None)
                 if r is not None:
@@ -1180,7 +1217,22 @@ class Translator(Gen, ExprMixin, CallMixin, StmtMixin):
             raise Unsupported(f'function {key} not found in the source')
         mod, ci, fn, kind = lk
         ctx = Ctx(key, mod, ci)
-        if kind == 'dcinit':
+        if kind == 'new':
+            ik = self.init_key(ci)
+            if ik is None:
+                raise Unsupported(f'class {ci.name} has no analysable __init__')
+            pos, vararg, kwonly, kwarg = self.signature(ik)
+            if vararg or kwarg:
+                raise Unsupported(f'constructor of {ci.name} with *args / **kwargs')
+            params = [(p, 'PBlob') for p in pos + kwonly]
+            for p, _ in params:
+                ctx.locals.add(p)
+            self.request(ik)
+            ctx.callees.add(ik)
+            args = cl([f'({cq(p)}, (EVar {cq(p)}))' for p, _ in params])
+            body = [f'SReturn (ENew {self.new_alloc(ctx)} {self.ctag(ci)} {cl([self.fid(ik)])} {args})']
+            decos, line = [], ci.node.lineno
+        elif kind == 'dcinit':
             fs = self.dc_fields(ci)
             ctx.self_name = 'self'
             params = [('self', 'PBlob')] + [(f[0], 'PBlob') for f in fs]
